@@ -438,7 +438,9 @@ fn build_media_with<R>(script: &str, f: impl FnOnce(&MediaPlaylist<'_>) -> R) ->
         match c {
             MediaCall::Parse(t) => {
                 if i + 1 != calls.len() {
-                    return Err(Fail::Bad);
+                    // the builder is used again afterwards: whatever this call returns is dropped
+                    let _ = b.parse(t);
+                    continue;
                 }
                 parse_text = Some(t);
             }
@@ -500,6 +502,11 @@ pub fn op_build_media(script: &str) -> String {
     finish(build_media(script))
 }
 
+/// `owned_build_media`: a builder script (it may end in `parse <text>`), then `into_owned()` / `clone()` of what it made
+pub fn op_owned_build_media(script: &str) -> String {
+    finish(build_media_with(script, |p| crate::ops::owned_line::<crate::kinds::PMedia>(p)))
+}
+
 /// `cmp_build_media`: two builder scripts; ==, cmp and hash of the two built playlists and of their segment lists
 /// (values with explicit segment numbers are only reachable through the builders).
 pub fn op_cmp_build_media(script_a: &str, script_b: &str) -> String {
@@ -546,6 +553,9 @@ enum MasterCall {
     Ind(bool),
     Start(Float, bool),
     Media(Vec<String>),
+    /// renditions made with `ExtXMedia::builder()` (one argument per rendition: its `k=v` tokens joined by `+`), so that
+    /// values no text can carry (a quote inside a group id …) reach the playlist builder
+    MediaBuilt(Vec<Vec<String>>),
     Variants(Vec<String>),
     Sdata(Vec<String>),
     Skeys(Vec<String>),
@@ -576,6 +586,14 @@ fn p_master_script(script: &str) -> Res<Vec<MasterCall>> {
                 let texts = p_texts(args)?;
                 parse_all(&texts, ExtXMedia::try_from)?;
                 MasterCall::Media(texts)
+            }
+            "mediab" => {
+                let items: Vec<Vec<String>> = args.iter().map(|a| a.split('+').map(str::to_string).collect()).collect();
+                for it in &items {
+                    let toks: Vec<&str> = it.iter().map(String::as_str).collect();
+                    media_from_tokens(&toks).map_err(|_| Fail::Bad)?;
+                }
+                MasterCall::MediaBuilt(items)
             }
             "variants" => {
                 let texts = p_texts(args)?;
@@ -613,6 +631,14 @@ fn build_master(script: &str) -> Res<String> {
             MasterCall::Media(texts) => {
                 b.media(parse_all(texts, ExtXMedia::try_from)?);
             }
+            MasterCall::MediaBuilt(items) => {
+                let mut v = Vec::new();
+                for it in items {
+                    let toks: Vec<&str> = it.iter().map(String::as_str).collect();
+                    v.push(media_from_tokens(&toks)?);
+                }
+                b.media(v);
+            }
             MasterCall::Variants(texts) => {
                 b.variant_streams(parse_all(texts, VariantStream::try_from)?);
             }
@@ -639,6 +665,11 @@ pub fn op_build_master(script: &str) -> String {
 // --------------------------------------------------------------- build_tag
 
 fn build_tag_media(toks: &[&str]) -> Res<String> {
+    let v = media_from_tokens(toks)?;
+    Ok(value_response::<TExtXMedia>(&v, Layout::Tag))
+}
+
+fn media_from_tokens(toks: &[&str]) -> Res<ExtXMedia<'static>> {
     enum C {
         Type(MediaType),
         Uri(String),
@@ -719,8 +750,7 @@ fn build_tag_media(toks: &[&str]) -> Res<String> {
             }
         }
     }
-    let v = b.build().map_err(|_| Fail::Err)?;
-    Ok(value_response::<TExtXMedia>(&v, Layout::Tag))
+    b.build().map_err(|_| Fail::Err)
 }
 
 fn build_tag_daterange(toks: &[&str]) -> Res<String> {
